@@ -14,6 +14,8 @@ use std::sync::{Arc, Mutex};
 pub enum PVal {
     Int(i64),
     Str(String),
+    /// an array of integers (its elements are values of their own: an event that is copied shallowly shares them)
+    Arr(Vec<i64>),
 }
 
 #[derive(Clone, Debug, Serialize, Deserialize, PartialEq, Default)]
@@ -44,6 +46,7 @@ impl EvSpec {
                             match v {
                                 PVal::Int(i) => Data::Integer(*i),
                                 PVal::Str(s) => Data::String(s.clone()),
+                                PVal::Arr(a) => Data::Array(a.iter().map(|i| rufsm::datamodel::create_data_arc(Data::Integer(*i))).collect()),
                             },
                         )
                     })
